@@ -161,6 +161,16 @@ func (r *reader) ReadRune() (rune, int, error) {
 
 func (r *reader) LineOffset() int {
 	if r.lineOffset < 0 {
+		if r.head < 0 {
+			h := r.pos.Start
+			if h > r.sourceLength {
+				h = r.sourceLength
+			}
+			for h > 0 && r.source[h-1] != '\n' {
+				h--
+			}
+			r.head = h
+		}
 		v := 0
 		for i := r.head; i < r.pos.Start; i++ {
 			if r.source[i] == '\t' {
@@ -186,6 +196,9 @@ func (r *reader) PrecendingCharacter() rune {
 		if utf8.RuneStart(r.source[i]) {
 			break
 		}
+	}
+	if i < 0 {
+		return utf8.RuneError
 	}
 	rn, _ := utf8.DecodeRune(r.source[i:])
 	return rn
@@ -246,11 +259,17 @@ func (r *reader) Position() (int, Segment) {
 
 func (r *reader) SetPosition(line int, pos Segment) {
 	r.lineOffset = -1
+	r.peekedLine = nil
+	if line != r.line {
+		r.head = -1 // recomputed by LineOffset
+	}
 	r.line = line
 	r.pos = pos
 }
 
 func (r *reader) SetPadding(v int) {
+	r.lineOffset = -1
+	r.peekedLine = nil
 	r.pos.Padding = v
 }
 
